@@ -3,7 +3,7 @@
    the value of every probability term, so the theorems hold for every distribution. Division is total on Q
    (x / 0 = 0); Fraction.simplify, which cancels factors, carries the hypothesis that the denominator is not zero. *)
 From Coq Require Import List Bool QArith.
-From Y0 Require Import Base.ListSet Dsl.Syntax Dsl.Build Dsl.Canon Dsl.Sem Dsl.Laws Proofs.DslP Proofs.SemP Proofs.LawP Proofs.SumSimpP Proofs.CanonSemP.
+From Y0 Require Import Base.ListSet Dsl.Syntax Dsl.Build Dsl.Canon Dsl.Sem Dsl.Laws Proofs.DslP Proofs.SemP Proofs.LawP Proofs.SumSimpP Proofs.CanonSemP Proofs.ChainP.
 Import ListNotations.
 Open Scope Q_scope.
 
@@ -55,6 +55,34 @@ Theorem C13_order_of_summation_is_immaterial m ns ns' f r :
   Permutation.Permutation ns ns' -> ext_fun f -> sum_over m ns f r == sum_over m ns' f r.
 Proof. exact (fun Hp => sum_over_perm m ns ns' Hp f r). Qed.
 
+(* chain rule: the product of the single-child conditionals is the original conditional probability *)
+Theorem C13_chain_expansion m pop ch pa reorder ordering r :
+  lawful m -> NoDup (ch ++ pa) -> ch <> [] ->
+  is_err (chain_expand (EProb pop ch pa) reorder ordering) = false ->
+  eval m (chain_expand (EProb pop ch pa) reorder ordering) r == atom m pop ch pa r.
+Proof. exact (fun Hl => eval_chain_expand m Hl pop ch pa reorder ordering r). Qed.
+
+Theorem C13_fraction_expansion m pop ch pa r :
+  lawful m -> NoDup pa -> ch <> [] -> eval m (fraction_expand (EProb pop ch pa)) r == atom m pop ch pa r.
+Proof. exact (fun Hl => eval_fraction_expand m Hl pop ch pa r). Qed.
+
+Theorem C13_bayes_expansion m pop ch pa r :
+  lawful m -> NoDup (names (ch ++ pa)) -> ch <> [] -> eval m (bayes_expand (EProb pop ch pa)) r == atom m pop ch pa r.
+Proof. exact (fun Hl => eval_bayes_expand m Hl pop ch pa r). Qed.
+
+(* contraction (repaired code: both probabilities of the same kind and population) *)
+Theorem C13_contraction m pop nch dch r :
+  lawful m -> NoDup nch -> NoDup dch -> dch <> [] ->
+  is_err (contract (EFrac (EProb pop nch []) (EProb pop dch []))) = false ->
+  eval m (contract (EFrac (EProb pop nch []) (EProb pop dch []))) r == atom m pop nch [] r / atom m pop dch [] r.
+Proof. exact (fun Hl => eval_contract m Hl pop nch dch r). Qed.
+
+(* the code before the repair contracted across populations: PP[S](A, B) / P(B) became PP[S](A | B) *)
+Theorem C13_old_contraction_ignored_the_population :
+  contract_old (EFrac (EProb (Some (V 17)) [V 0; V 1] []) (EProb None [V 1] [])) = EProb (Some (V 17)) [V 0] [V 1] /\
+  contract (EFrac (EProb (Some (V 17)) [V 0; V 1] []) (EProb None [V 1] [])) = EFrac (EProb (Some (V 17)) [V 0; V 1] []) (EProb None [V 1] []).
+Proof. vm_compute. auto. Qed.
+
 Theorem C13_chain_expansion_yields_single_child_factors pop ch pa reorder ordering :
   ch <> [] ->
   match chain_expand (EProb pop ch pa) reorder ordering with
@@ -73,4 +101,9 @@ Print Assumptions C13_fraction_simplification.
 Print Assumptions C13_sum_simplification.
 Print Assumptions C13_sum_constructor_with_simplification.
 Print Assumptions C13_order_of_summation_is_immaterial.
+Print Assumptions C13_chain_expansion.
+Print Assumptions C13_fraction_expansion.
+Print Assumptions C13_bayes_expansion.
+Print Assumptions C13_contraction.
+Print Assumptions C13_old_contraction_ignored_the_population.
 Print Assumptions C13_chain_expansion_yields_single_child_factors.
